@@ -17,8 +17,8 @@ from vf import harness
 
 PROP = "C16"
 SHARDS = {"quick": 16, "thorough": 16}
-TIME_CAP = {"quick": 240, "thorough": 2700}   # wall-clock guard only (loaded machines); the budgets are counts
-CPU_CAP = {"quick": 60, "thorough": 700}       # CPU seconds per worker (nominal: ~20 s quick, ~200 s thorough)
+TIME_CAP = {"quick": 600, "thorough": 2700}   # wall-clock guard only (loaded machines); the budgets are counts
+CPU_CAP = {"quick": 150, "thorough": 900}      # CPU seconds per worker (nominal: ~20 s quick, ~200 s thorough)
 REQUIRED = ["programs", "view:serialize", "view:deserialization_schema", "view:serialization_schema", "view:graphql_output", "view:graphql_input",
             "agreement_checks", "form:field-metadata", "form:class-mapping", "form:class-mapping-partial", "form:class-sequence", "form:inheritance",
             "form:inheritance-override", "form:inheritance-base-mapping", "form:resolver-serialized", "programs_with_chain", "programs_with_before_of_attached", "programs_n5",
